@@ -470,6 +470,7 @@ type A struct {
 	Common
 	OnlyA string
 	Buddy *A
+	Nick  string
 }
 type B struct {
 	Common
@@ -481,6 +482,7 @@ type C struct {
 	Common
 	OnlyC bool
 	Buddy interface{}
+	Nick  string
 }
 type Query struct {
 	Common
@@ -510,6 +512,9 @@ func (v V) Vm() (interface{}, error) {
 	}
 	return v.Xr.value(v.Xn, "vm", nil), nil
 }
+
+// Nick answers B.nick: B has no struct field of that name (A and C have), only this method.
+func (b *B) Nick() (interface{}, error) { return b.Common.call("nick") }
 
 // NameB answers B.name under BindRegisterFields (RegisterField("B", "name", "NameB")).
 func (b *B) NameB() string { return b.RealName }
@@ -656,6 +661,7 @@ func (b *fsBuilder) obj(n *Node) interface{} {
 		o, c = x, &x.Common
 		b.objs[n] = o
 		x.OnlyA, _ = n.F["onlyA"].(string)
+		x.Nick, _ = n.F["nick"].(string)
 		x.Buddy, _ = b.obj(nodeOf(n.F["buddy"])).(*A)
 	case "B":
 		x := &B{}
@@ -669,6 +675,7 @@ func (b *fsBuilder) obj(n *Node) interface{} {
 		o, c = x, &x.Common
 		b.objs[n] = o
 		x.OnlyC, _ = n.F["onlyC"].(bool)
+		x.Nick, _ = n.F["nick"].(string)
 		x.Buddy = b.rep(nodeOf(n.F["buddy"]))
 	case "Query":
 		x := &Query{}
